@@ -1,15 +1,156 @@
 package main
 
 import (
+	"flag"
 	"fmt"
-	"golang.org/x/tools/go/packages"
-	"golang.org/x/tools/go/ssa"
-	"golang.org/x/tools/go/ssa/ssautil"
+	"os"
+	"path/filepath"
+	"sort"
+	"strconv"
+	"strings"
 )
 
+// rsa: repository-specific static analyser for hanwen/reftable.
+//   rsa check --property C04 --tier quick --repo /repo --verif /verif
+//   rsa explain <violation.json>
+
 func main() {
-	_ = packages.Load
-	_ = ssa.BuilderMode(0)
-	_ = ssautil.Packages
-	fmt.Println("ok")
+	if len(os.Args) < 2 {
+		fmt.Fprintln(os.Stderr, "usage: rsa check|explain|debug …")
+		os.Exit(2)
+	}
+	switch os.Args[1] {
+	case "check":
+		os.Exit(cmdCheck(os.Args[2:]))
+	case "explain":
+		os.Exit(cmdExplain(os.Args[2:]))
+	case "debug":
+		os.Exit(cmdDebug(os.Args[2:]))
+	}
+	fmt.Fprintln(os.Stderr, "unknown command", os.Args[1])
+	os.Exit(2)
+}
+
+type checkFunc func(p *Program, r *Report)
+
+var checks = map[string]checkFunc{}
+
+func cmdCheck(args []string) (code int) {
+	fs := flag.NewFlagSet("check", flag.ExitOnError)
+	prop := fs.String("property", "", "property id")
+	tier := fs.String("tier", "quick", "quick|thorough")
+	repo := fs.String("repo", "/repo", "repository root")
+	verif := fs.String("verif", "/verif", "verif root")
+	fs.Parse(args)
+	seed := int64(0)
+	if s := os.Getenv("VERIF_SEED"); s != "" {
+		seed, _ = strconv.ParseInt(s, 10, 64)
+	}
+	f, ok := checks[*prop]
+	if !ok {
+		fmt.Fprintf(os.Stderr, "no check registered for %q\n", *prop)
+		return 2
+	}
+	defer func() {
+		if e := recover(); e != nil {
+			if ae, ok := e.(analysisError); ok {
+				fmt.Fprintf(os.Stderr, "ANALYSIS-ERROR property=%s: %s\n", *prop, ae.msg)
+				code = 2
+				return
+			}
+			panic(e)
+		}
+	}()
+	abs, _ := filepath.Abs(*repo)
+	p := loadProgram(abs, "", nil)
+	r := newReport(*prop, *tier, seed)
+	f(p, r)
+	return r.finish(*verif)
+}
+
+func cmdExplain(args []string) int {
+	if len(args) < 1 {
+		return 2
+	}
+	b, err := os.ReadFile(args[0])
+	if err != nil {
+		fmt.Fprintln(os.Stderr, err)
+		return 2
+	}
+	fmt.Println(string(b))
+	return 0
+}
+
+// cmdDebug runs the file-protocol analysis and prints everything.
+func cmdDebug(args []string) (code int) {
+	fs := flag.NewFlagSet("debug", flag.ExitOnError)
+	repo := fs.String("repo", "/repo", "repository root")
+	only := fs.String("entry", "", "only this entry point")
+	wit := fs.Bool("witness", false, "print witnesses")
+	fs.Parse(args)
+	defer func() {
+		if e := recover(); e != nil {
+			if ae, ok := e.(analysisError); ok {
+				fmt.Fprintf(os.Stderr, "ANALYSIS-ERROR: %s\n", ae.msg)
+				code = 2
+				return
+			}
+			panic(e)
+		}
+	}()
+	p := loadProgram(*repo, "", nil)
+	rules, runs := runFsproto(p, *only)
+	for _, r := range runs {
+		fmt.Printf("entry %-28s paths=%d states=%d forks=%d loops=%d rounds=%d inlined=%d merged=%d funcs=%d\n", r.Entry, r.Paths, r.States, r.Forks, r.Loops, r.Rounds, r.Inlined, r.Merged, len(r.Funcs))
+	}
+	var ks []string
+	for k := range rules.obl {
+		ks = append(ks, k)
+	}
+	sort.Strings(ks)
+	for _, k := range ks {
+		o := rules.obl[k]
+		s := "ok  "
+		if !o.OK {
+			s = "VIOL"
+		}
+		fmt.Printf("%s %s\n", s, k)
+		if !o.OK {
+			v := rules.viol[k]
+			fmt.Printf("       %s: %s\n", v.Where, v.Message)
+			if *wit {
+				for _, w := range v.Witness {
+					if strings.Contains(w, "event") || strings.Contains(w, "branch") || true {
+						fmt.Printf("         %s\n", w)
+					}
+				}
+			}
+		}
+	}
+	return 0
+}
+
+// runFsproto analyses all entry points (or one).
+func runFsproto(p *Program, only string) (*fsRules, []fsRun) {
+	rules := newFsRules()
+	c := newFsClient(p, rules)
+	var runs []fsRun
+	eps := fsEntryPoints(p)
+	// AutoCompact first: its result summary is used inside Stack.Add
+	sort.SliceStable(eps, func(i, j int) bool { return funcKey(eps[i]) == "(*Stack).AutoCompact" && funcKey(eps[j]) != "(*Stack).AutoCompact" })
+	for _, fn := range eps {
+		if only != "" && funcKey(fn) != only && !(funcKey(fn) == "(*Stack).AutoCompact" && only == "(*Stack).Add") {
+			continue
+		}
+		c.runEntry(fn, &runs)
+	}
+	if only != "" && len(runs) == 0 && only != "protocol" {
+		if fn := p.Func(only); fn != nil {
+			c.runEntry(fn, &runs)
+		}
+	}
+	if only == "" || only == "protocol" {
+		c.runProtocol(&runs)
+	}
+	return rules, runs
 }
